@@ -82,7 +82,7 @@ RROUTES = ['dtype-default', 'dtype-Q', 'get_dtype(fxp)|fxp', 'get_dtype(Q)|fxp',
 
 def _c12_rows(fx, np, pid, t, strings, rng=None, full=True):
     out = []
-    m_ok = t[1] - t[2] >= 0
+    m_ok = True          # (Q notation for every format: the integer part m = n_word - n_frac may be negative, 'Q-3.11')
     for route in RROUTES:
         if 'Q' in route:          # (any Q rendering, asked for or made on the way)
             if not m_ok:
